@@ -33,7 +33,10 @@ const corpusPrelude = `package p
 import (
 	"context"
 	"io"
+	"unsafe"
 )
+
+var _ unsafe.Pointer
 
 type LT struct{ N int }
 
@@ -59,7 +62,7 @@ var corpTypes = []corpType{
 	{"int", "int"}, {"string", "string"}, {"bool", "bool"}, {"error", "error"}, {"ints", "[]int"}, {"map", "map[string]int"},
 	{"ptr", "*LT"}, {"reader", "io.Reader"}, {"any", "any"}, {"func", "func()"}, {"struct", "LT"}, {"chan", "chan int"},
 	{"array", "[2]int"}, {"ctx", "context.Context"}, {"li", "LI"}, {"named", "Named"}, {"nslice", "NamedSlice"}, {"nfunc", "NamedFunc"},
-	{"iface", "interface{ Foo() int }"}, {"bytes", "[]byte"},
+	{"iface", "interface{ Foo() int }"}, {"bytes", "[]byte"}, {"unsafe", "unsafe.Pointer"},
 }
 
 func (m corpMethod) decl() string {
